@@ -17,12 +17,12 @@ import (
 type specKind int
 
 const (
-	kExact     specKind = iota // satisfiable (if MustSat) and the output is exactly Outs
-	kUnsat                     // the documentation promises that no proof can be generated
-	kUnsatOr                   // "either a proof can not be generated or the result is Outs"
-	kPred                      // any satisfying output must satisfy Pred (Outs = expected genuine result, may be nil)
-	kUndefined                 // documented as undefined: nothing asserted
-	kDeterministic             // "unsatisfiable or some well-defined deterministic output": at most one output is accepted (Outs = first guess)
+	kExact         specKind = iota // satisfiable (if MustSat) and the output is exactly Outs
+	kUnsat                         // the documentation promises that no proof can be generated
+	kUnsatOr                       // "either a proof can not be generated or the result is Outs"
+	kPred                          // any satisfying output must satisfy Pred (Outs = expected genuine result, may be nil)
+	kUndefined                     // documented as undefined: nothing asserted
+	kDeterministic                 // "unsatisfiable or some well-defined deterministic output": at most one output is accepted (Outs = first guess)
 )
 
 // Spec is the documented behaviour of a gadget on one input.
